@@ -569,6 +569,59 @@ def normalise(fn, world=None, modname=None, cls=None, primitives=(),
     return fn
 
 
+def split_conditional_augassign(fn):
+    """`x OP= (A if t else B)` is `if t: x OP= A  else: x OP= B`, and an
+    augmented assignment by the operation's neutral element (`>>= 0`,
+    `<<= 0`, `+= 0`, `-= 0`, `|= 0`, `^= 0`, `*= 1`, `//= 1`) is nothing.
+    Returns the number of statements rewritten (fn changed in place)."""
+    n_done = [0]
+
+    def neutral(s):
+        return isinstance(s, ast.AugAssign) and isinstance(
+            s.value, ast.Constant) and type(s.value.value) is int and (
+                (s.value.value == 0 and isinstance(s.op, (
+                    ast.RShift, ast.LShift, ast.Add, ast.Sub, ast.BitOr,
+                    ast.BitXor))) or
+                (s.value.value == 1 and isinstance(s.op, (
+                    ast.Mult, ast.FloorDiv))))
+
+    def block(stmts):
+        out = []
+        for s in stmts:
+            for fld in ("body", "orelse", "finalbody"):
+                sub = getattr(s, fld, None)
+                if isinstance(sub, list) and sub and isinstance(
+                        sub[0], ast.stmt) and not isinstance(
+                            s, (ast.FunctionDef, ast.AsyncFunctionDef,
+                                ast.ClassDef)):
+                    setattr(s, fld, block(sub) or (
+                        [ast.Pass()] if fld == "body" else []))
+            if isinstance(s, ast.Try):
+                for h in s.handlers:
+                    h.body = block(h.body) or [ast.Pass()]
+            if isinstance(s, ast.AugAssign) and isinstance(
+                    s.value, ast.IfExp) and _pure(s.value.test):
+                a, b = acopy(s), acopy(s)
+                a.value, b.value = s.value.body, s.value.orelse
+                body = [] if neutral(a) else [a]
+                orelse = [] if neutral(b) else [b]
+                n_done[0] += 1
+                if body or orelse:
+                    test = s.value.test
+                    if not body:
+                        test = ast.UnaryOp(ast.Not(), test)
+                        body, orelse = orelse, []
+                    out.append(ast.copy_location(
+                        ast.If(test, body, orelse), s))
+                continue
+            out.append(s)
+        return out
+    fn.body = block(fn.body)
+    if n_done[0]:
+        ast.fix_missing_locations(fn)
+    return n_done[0]
+
+
 def enumerate_index_to_zip(fn):
     """`for i, v in enumerate(B): a = A[i]; REST` (i not used in REST, not
     stored to) pairs element i of A with element i of B, which is what
